@@ -11,7 +11,7 @@ from memserver import Req, Client, Token, CLOCK
 RULE = ("one case = (grant, token generator, server-supported set, client-allowed scope, requested scope, original scope); "
         "non-trivial = distinct case whose request names at least one scope word")
 ASSUMPTIONS = ["reference integrator: client.get_allowed_scope is the order-preserving filter of sqla_oauth2.OAuth2ClientMixin",
-               "supported-scope configuration is constant over a history (stored scopes were validated against the same set)"]
+               "a server whose supported-scope configuration changed after a first request judges each request by the configuration in force (warm-up cases); stored scopes were validated against the set in force when stored"]
 TRUSTED = ["memserver.py reference integrator"]
 
 GRANTS = {  # name -> model kind
